@@ -466,6 +466,16 @@ func init() {
 			default:
 				out[i] = g.seq(ety, true)
 			}
+			if g.r.Chance(1, 4) && !out[i].Type().IsTupleType() {
+				// an argument of unknown length with a length upper bound: setproduct multiplies the bounds and
+				// changes its answer when a bound or the product passes a limit (1024 per argument, 2048 in all)
+				b := []int{0, 1, 2, 3, 48, 64, 683, 900, 1024, 1025, 3000}[g.r.Intn(11)]
+				rb := cty.UnknownVal(out[i].Type()).Refine().CollectionLengthUpperBound(b)
+				if g.r.Bool() {
+					rb = rb.NotNull()
+				}
+				out[i] = rb.NewValue()
+			}
 		}
 		return out
 	})
